@@ -396,8 +396,19 @@ def run(ctx, rep, tier):
     rep.check(ok, "C01.j", "ForeachNode.convert", "skips only transitions into error handlers, non-consuming transitions and transitions on end-of-input alone",
               f"foreach skips transitions under `{ast.unparse(skips[0].test) if skips else None}`: some consumed bytes (e.g. bytes skipped by a wait) no longer run the do-actions")
     fsrc = ast.unparse(fe)
-    rep.check("transition.attach(*self.each_actions, prepend=True)" in fsrc and "ignored_targets = set(current_error_handlers.values())" in fsrc and "for state in sub_dfa.states:" in fsrc
-              and "for transition in state.all_transitions():" in fsrc, "C01.j", "ForeachNode.convert", "each-actions first on every remaining transition of every body state", "foreach attachment changed")
+    rep.check(("transition.attach(*self.each_actions, prepend=True)" in fsrc or "transition.attach_for_this_byte(*self.each_actions)" in fsrc) and "ignored_targets = set(current_error_handlers.values())" in fsrc
+              and "for state in sub_dfa.states:" in fsrc and "for transition in state.all_transitions():" in fsrc, "C01.j", "ForeachNode.convert",
+              "each-actions on every remaining transition of every body state", "foreach attachment changed")
+    # F-110: WHERE on the transition - behind the actions chained in from statements in front of the byte (they are performed before it is taken) and behind the
+    # transition's own appends (a byte that does not fit is handed to the handler, not taken here). The very front of the list is neither.
+    afb = model.functions.get("DFTransition.attach_for_this_byte")
+    placed = "transition.attach_for_this_byte(*self.each_actions)" in fsrc and afb is not None and \
+        model.has("DFTransition.attach_for_this_byte", "position = self.leading_actions\nfor index, action in enumerate(self.actions):\n    if index >= position and isinstance(action, AppendTo):\n        position = index + 1\nself.actions[position:position] = actions") and \
+        model.has("DFTransition.attach", "if prepend:\n    self.actions = list(actions) + self.actions\n    self.leading_actions += len(actions)") and \
+        model.has("DFTransition.copy", "my_copy.leading_actions = self.leading_actions") and model.has("DFTransition.from_key", "result.leading_actions = inherited.leading_actions")
+    rep.check(bool(placed), "C01.j", "ForeachNode.convert", "each-actions stand behind the chained-in actions and behind the byte's own appends",
+              "the per-character actions of a foreach are put at the very front of the transition: actions chained in from the statements in front of the byte (`optional { \"b\"; } mid(); \"c\";` "
+              "puts mid() on the c transition) see the byte already counted, and an appended byte that does not fit is counted although it is handed to the handler (and counted again there)")
     body = strip_doc(fe.body)
     i_att = next((i for i, st in enumerate(body) if "each_actions" in ast.unparse(st)), None)
     i_next = next((i for i, st in enumerate(body) if "self.next" in ast.unparse(st)), None)
